@@ -3,7 +3,7 @@
 import json, os, sys
 ROOT = os.path.dirname(os.path.dirname(os.path.abspath(__file__)))
 
-TECH = "bounded symbolic execution of the real Python functions on z3 proxies; one SMT query (z3, cvc5 fallback) per obligation and path; counterexamples replayed on the unpatched code"
+TECH = "bounded symbolic execution of the real Python functions on z3 proxies; one SMT query (z3, cvc5 fallback) per obligation and path; counterexamples replayed on the unpatched code; a sample of the discharged obligations re-decided by cvc5"
 
 CHECKS = {
  "C11": dict(
